@@ -112,9 +112,11 @@ deriving DecidableEq, Repr
 
 /-- `stream.seek(off, whence)`: a `BytesIO` raises `ValueError` for a negative absolute offset and clamps a
 negative relative target to 0; a real file raises `OSError` for every negative target. -/
+def seekBase (s : Stream) (whence : Nat) : Int :=
+  if whence = 0 then 0 else if whence = 1 then s.pos else s.data.length
+
 def seek (isFile : Bool) (s : Stream) (off : Int) (whence : Nat) : Except Exc Stream :=
-  let base : Int := if whence = 0 then 0 else if whence = 1 then s.pos else s.data.length
-  let target := base + off
+  let target := seekBase s whence + off
   if target < 0 then
     if isFile then .error .osError
     else if whence = 0 then .error .valueError
@@ -160,29 +162,37 @@ structure StreamIn where
   iters : Nat                   -- how many times `iter_bytes()` is consumed afterwards
 deriving Repr
 
+def seekEvs (i : StreamIn) : List Ev :=
+  match i.seekTo with
+  | none => []
+  | some (off, wh) => [Ev.seek off wh]
+
+/-- the optional `stream.seek(seek_offset, seek_whence)` at the start of `_iter_chunks` -/
+def seekRes (i : StreamIn) (s0 : Stream) : Except Exc Stream :=
+  match i.seekTo with
+  | none => .ok s0
+  | some (off, wh) => seek i.isFile s0 off wh
+
 /-- one evaluation of `reader()` run to exhaustion: events (with or without the consumer's `chunk`
-events), the chunks, the stream afterwards, and the exception that ended it if any -/
+events), the chunks (`none`: the seek raised), and the stream afterwards -/
 def readAll (i : StreamIn) (s : Stream) (consumer : Bool) : List Ev × Option (List Bytes) × Stream :=
   let s0 : Stream := if i.isFile then { s with pos := 0 } else s
   let op := if i.isFile then [Ev.opened] else []
   let cl := if i.isFile then [Ev.closed] else []
-  let sk := match i.seekTo with
-    | none => ([], Except.ok s0)
-    | some (off, wh) => ([Ev.seek off wh], seek i.isFile s0 off wh)
-  match sk.2 with
-  | .error e => (op ++ sk.1 ++ cl ++ [Ev.raised e], none, s0)
+  match seekRes i s0 with
+  | .error e => (op ++ seekEvs i ++ cl ++ [Ev.raised e], none, s0)
   | .ok s1 =>
     let cs := chunks i.chunkSize (s1.data.drop s1.pos)
     let evs := cs.flatMap fun c => Ev.read i.chunkSize c.length :: (if consumer then [Ev.chunk c] else [])
     let s2 : Stream := { s1 with pos := s1.pos + cs.flatten.length }
-    (op ++ sk.1 ++ evs ++ [Ev.read i.chunkSize 0] ++ cl, some cs, s2)
+    (op ++ seekEvs i ++ evs ++ [Ev.read i.chunkSize 0] ++ cl, some cs, s2)
 
 /-- `iters` consumptions of a lazy content -/
 def lazyIters (i : StreamIn) : Nat → Stream → List Ev
   | 0, _ => []
   | k + 1, s =>
     let r := readAll i s true
-    (Ev.iter :: r.1) ++ (match r.2.1 with | some _ => [Ev.done] | none => []) ++ lazyIters i k r.2.2
+    (Ev.iter :: r.1) ++ (if r.2.1.isSome then [Ev.done] else []) ++ lazyIters i k r.2.2
 
 /-- the whole scenario: construct, replace the data, consume `iters` times -/
 def streamModel (i : StreamIn) : List Ev :=
